@@ -44,11 +44,13 @@ def check_init_dominance(P, R, rid):
     req_init = []
     resp_init = []
     for c in walk_shallow(h.node):
-        if isinstance(c, ast.Call) and isinstance(c.func, ast.Attribute) and c.func.attr == '__init__' and isinstance(c.func.value, ast.Name):
+        if isinstance(c, ast.Call) and isinstance(c.func, ast.Attribute) and c.func.attr == '__init__' and isinstance(c.func.value, (ast.Name, ast.Attribute)):
             n = g.node_of_stmt(c)[0]
-            recv = c.func.value.id
-            defs = rd.at(n, recv)
-            vals = {src(d.value) for d in defs if d.value is not None}
+            if isinstance(c.func.value, ast.Name):
+                defs = rd.root_defs(n, c.func.value.id)
+                vals = {src(d.value) for d in defs if d.value is not None}
+            else:
+                vals = {src(c.func.value)}      # self.request.__init__(environ) without a local alias
             if vals == {'self.request'}:
                 ok_arg = len(c.args) == 1 and isinstance(c.args[0], ast.Name) and c.args[0].id == h.params[1]
                 if ok_arg:
